@@ -10,6 +10,8 @@
 mod comb;
 mod core;
 #[cfg(feature = "cfg-alloc")]
+mod costream;
+#[cfg(feature = "cfg-alloc")]
 mod groups;
 
 use std::task::Context;
@@ -334,11 +336,20 @@ fn run_waves(rng: &mut Rng, fam: &str, id: &str) {
                 fire(*c, 0);
             }
         }
-        w += 1;
-        block.ops.push(format!("p {w}"));
-        let c = comb.as_mut().unwrap();
-        let o = do_poll(&mut |cx| c.poll(cx), w);
-        finished = final_outcome(&o, is_stream);
+        // poll, and keep polling as long as the poll itself woke its task (what a wake-driven
+        // executor does), at most three extra times
+        for _extra in 0..4 {
+            w += 1;
+            block.ops.push(format!("p {w}"));
+            let from = CTX.with(|c| c.borrow().log.len());
+            let c = comb.as_mut().unwrap();
+            let o = do_poll(&mut |cx| c.poll(cx), w);
+            finished = final_outcome(&o, is_stream);
+            let woke_self = CTX.with(|c| c.borrow().log[from..].iter().any(|l| *l == format!("wo {w}")));
+            if finished || !woke_self || (is_stream && o != "P") {
+                break;
+            }
+        }
     }
     block.ops.push("d".into());
     log("db".into());
@@ -662,6 +673,196 @@ fn run_group(rng: &mut Rng, stream: bool, id: &str, prof: &Profile) {
     reset();
 }
 
+/// scripts of a co-stream case: source (child 0) and one work future per (item, closure stage)
+#[cfg(feature = "cfg-alloc")]
+fn gen_co_scripts(rng: &mut Rng, term: &str, shape: &str, items: usize, prof: &Profile) -> Vec<Vec<Step>> {
+    use crate::costream::*;
+    let stages = stages_of(term, shape);
+    let mut scripts: Vec<Vec<Step>> = vec![];
+    // source
+    let mut src = vec![];
+    let src_ready = rng.chance(35);
+    for j in 0..items {
+        if !src_ready {
+            for _ in 0..rng.below(3).saturating_sub(if rng.chance(50) { 1 } else { 0 }) {
+                src.push(Step { res: Res::Pend, fires: vec![] });
+            }
+        }
+        src.push(Step { res: Res::Item(item_id(j)), fires: vec![] });
+    }
+    if rng.chance(25) {
+        src.push(Step { res: Res::Pend, fires: vec![] });
+    }
+    if !rng.chance(if prof.is("stuck") { 40 } else { 8 }) {
+        src.push(Step { res: Res::Fin, fires: vec![] });
+    }
+    scripts.push(src);
+    // work futures
+    let fallible_last = term == "tfe" || term == "cr";
+    let err_pct = if prof.is("errs") { 45 } else { 18 };
+    let work_ready = rng.chance(25);
+    for j in 0..items {
+        for st in 0..stages {
+            let mut w = vec![];
+            if !work_ready {
+                for _ in 0..rng.below(3) {
+                    let fires = if rng.chance(25) { vec![(work_child(stages, st, j), 0)] } else { vec![] };
+                    w.push(Step { res: Res::Pend, fires });
+                }
+            }
+            let is_last_closure = st + 1 == stages;
+            let never = rng.chance(if prof.is("stuck") { 25 } else { 4 });
+            if !never {
+                let ok = !(fallible_last && is_last_closure && rng.chance(err_pct));
+                let v = if ok { item_id(j) } else { 5000 + j };
+                w.push(Step { res: Res::Ready(ok, v), fires: vec![] });
+            }
+            scripts.push(w);
+        }
+    }
+    scripts
+}
+
+#[cfg(feature = "cfg-alloc")]
+fn run_co(rng: &mut Rng, id: &str, prof: &Profile) {
+    use crate::costream::*;
+    reset();
+    let term = *rng.pick(&["fe", "fe", "tfe", "tfe", "cv", "cr"]);
+    let shape = if term == "cr" { *rng.pick(RES_SHAPES) } else { *rng.pick(PLAIN_SHAPES) };
+    let items = if rng.chance(15) { 0 } else { 1 + rng.below(6) };
+    let takes: Vec<usize> = shape
+        .chars()
+        .filter(|c| *c == 'T')
+        .map(|_| if rng.chance(12) { 0 } else { rng.below(items + 2) })
+        .collect();
+    let limits: Vec<usize> = shape.chars().filter(|c| *c == 'L').map(|_| rng.below(4)).collect();
+    let scripts = gen_co_scripts(rng, term, shape, items, prof);
+    for (c, s) in scripts.iter().enumerate() {
+        let k = add_child(s.clone(), c);
+        assert_eq!(k, c);
+    }
+    let lt = |v: &Vec<usize>| if v.is_empty() { "-".to_string() } else { v.iter().map(|x| x.to_string()).collect::<Vec<_>>().join(",") };
+    let mut block = Block {
+        header: format!("CASE {id} co {MODE} {term} {shape} {} {} {items}", lt(&takes), lt(&limits)),
+        scripts: scripts.iter().cloned().enumerate().collect(),
+        ops: vec![],
+    };
+    let mut top: Option<CoComb> = Some(CoComb { top: build_co(term, shape, &takes, &limits) });
+    let nchild = scripts.len();
+    let mut next_w = 1usize;
+    let mut cur_w = 1usize;
+    let mut polls = 0usize;
+    let max_polls = 6 + rng.below(20);
+    let drop_after: Option<usize> = if rng.chance(25) { Some(rng.below(6)) } else { None };
+    let mut finished = false;
+    let mut steps = 0usize;
+    let mut woken = true;
+    while !finished && polls < max_polls && steps < 150 {
+        steps += 1;
+        if let Some(d) = drop_after {
+            if polls >= d {
+                break;
+            }
+        }
+        // mostly wake-driven: poll when the task was woken, sometimes spuriously
+        let do_poll_now = if woken { rng.chance(85) } else { rng.chance(12) };
+        if do_poll_now {
+            if polls == 0 || !rng.chance(20) {
+                cur_w = next_w;
+                next_w += 1;
+            }
+            block.ops.push(format!("p {cur_w}"));
+            let from = CTX.with(|c| c.borrow().log.len());
+            let t = top.as_mut().unwrap();
+            let o = do_poll(&mut |cx| t.poll(cx), cur_w);
+            polls += 1;
+            finished = o != "P";
+            woken = CTX.with(|c| c.borrow().log[from..].iter().any(|l| *l == format!("wo {cur_w}")));
+        } else {
+            // fire the latest waker of a child that is currently waiting, if any; else any child
+            let waiting: Vec<usize> = CTX.with(|c| {
+                let c = c.borrow();
+                let mut last: Vec<Option<bool>> = vec![None; nchild];
+                for l in &c.log {
+                    let ws: Vec<&str> = l.split(' ').collect();
+                    if ws.len() == 3 && ws[0] == "ce" {
+                        if let Ok(k) = ws[1].parse::<usize>() {
+                            if k < nchild {
+                                last[k] = Some(ws[2] == "P");
+                            }
+                        }
+                    }
+                }
+                (0..nchild).filter(|k| last[*k] == Some(true)).collect()
+            });
+            let c = if !waiting.is_empty() && rng.chance(85) { *rng.pick(&waiting) } else { rng.below(nchild.max(1)) };
+            let age = if rng.chance(85) { 0 } else { rng.below(3) };
+            block.ops.push(format!("f {c} {age}"));
+            let from = CTX.with(|c| c.borrow().log.len());
+            fire(c, age);
+            if CTX.with(|c| c.borrow().log[from..].iter().any(|l| *l == format!("wo {cur_w}"))) {
+                woken = true;
+            }
+        }
+    }
+    block.ops.push("d".into());
+    log("db".into());
+    drop(top.take());
+    log("de".into());
+    let trace = CTX.with(|c| std::mem::take(&mut c.borrow_mut().log));
+    block.print(&trace);
+    reset();
+}
+
+#[cfg(feature = "cfg-alloc")]
+fn replay_co(header: &str, scripts: &[(usize, Vec<Step>)], ops: &[String]) {
+    use crate::costream::*;
+    reset();
+    let hw: Vec<&str> = header.split_whitespace().collect();
+    // CASE id co mode term shape takes limits items
+    let term = hw[4];
+    let shape = hw[5];
+    let plist = |s: &str| -> Vec<usize> { if s == "-" { vec![] } else { s.split(',').map(|x| x.parse().unwrap()).collect() } };
+    let takes = plist(hw[6]);
+    let limits = plist(hw[7]);
+    let nch = scripts.iter().map(|(c, _)| c + 1).max().unwrap_or(0);
+    for c in 0..nch {
+        let s = scripts.iter().find(|(c2, _)| *c2 == c).map(|(_, s)| s.clone()).unwrap_or_default();
+        add_child(s, c);
+    }
+    let block = Block { header: header.to_string(), scripts: scripts.to_vec(), ops: ops.to_vec() };
+    let mut top: Option<CoComb> = Some(CoComb { top: build_co(term, shape, &takes, &limits) });
+    let mut finished = false;
+    for o in ops {
+        let ws: Vec<&str> = o.split(' ').collect();
+        match ws[0] {
+            "p" => {
+                if let Some(t) = top.as_mut() {
+                    if !finished {
+                        let r = do_poll(&mut |cx| t.poll(cx), ws[1].parse().unwrap());
+                        finished = r != "P";
+                    }
+                }
+            }
+            "f" => fire(ws[1].parse().unwrap(), ws[2].parse().unwrap()),
+            "d" => {
+                log("db".into());
+                drop(top.take());
+                log("de".into());
+            }
+            _ => {}
+        }
+    }
+    if top.is_some() {
+        set_mute(true);
+        drop(top.take());
+        set_mute(false);
+    }
+    let trace = CTX.with(|c| std::mem::take(&mut c.borrow_mut().log));
+    block.print(&trace);
+    reset();
+}
+
 fn parse_step(s: &str) -> Step {
     let mut parts = s.split('@');
     let r = parts.next().unwrap();
@@ -715,6 +916,11 @@ fn replay() {
 }
 
 fn replay_one(header: &str, scripts: &[(usize, Vec<Step>)], ops: &[String]) {
+    if header.split_whitespace().nth(2) == Some("co") {
+        #[cfg(feature = "cfg-alloc")]
+        replay_co(header, scripts, ops);
+        return;
+    }
     reset();
     let hw: Vec<&str> = header.split_whitespace().collect();
     let fam = hw[2];
@@ -910,6 +1116,10 @@ fn main() {
             "fgroup" | "sgroup" => {
                 #[cfg(feature = "cfg-alloc")]
                 run_group(&mut rng, fam == "sgroup", &id, &prof);
+            }
+            "co" => {
+                #[cfg(feature = "cfg-alloc")]
+                run_co(&mut rng, &id, &prof);
             }
             _ => run_fixed(&mut rng, &fam, &id, &prof),
         }
